@@ -140,6 +140,17 @@ _tok = re.compile(rb"\S+|\s+")
 _num = re.compile(rb"^[+-]?(\d+\.?\d*|\.\d+)([eE][+-]?\d+)?j?$")
 
 
+def splice(data, other, rng):
+    """insert 1..3 consecutive lines of another file of the same kind at a
+    random line boundary: header lines that no single writer produces
+    together (two forms of one keyword, repeated sections ...)"""
+    a, b = data.split(b"\n"), other.split(b"\n")
+    i = int(rng.integers(0, len(b)))
+    chunk = b[i:i + int(rng.integers(1, 4))]
+    j = int(rng.integers(0, len(a) + 1))
+    return b"\n".join(a[:j] + chunk + a[j:])
+
+
 def mutate(data, rng):
     """one structure-aware mutation (may be composed)"""
     n = int(rng.integers(0, 21))
